@@ -29,7 +29,7 @@ PROBES = ["pred_chunk_lacks_fold", "one_row_last_chunk", "spectrum_split_across_
           "spectrum_within_one_conf_chunk", "subsampled", "rowgroup_inside_chunk", "spill_files>=2",
           "switch_in_get_rows", "switch_in_save_chunks", "parquet", "workers>=8", "dedup_off", "rollup_off",
           "multi_file", "order_sensitive_learner", "sklearn_learner", "merge_chunk_small", "protein_level",
-          "pep_files_compared_strictly", "pep_files_checked_for_shape_only", "feature_with_missing_values"]
+          "pep_files_compared_strictly", "pep_files_checked_for_shape_only", "feature_with_missing_values", "ensemble_mode"]
 RULE = (
     "Each scenario = one seeded tie-free data set + configuration (learner, folds, seeds, rollup/decoy/dedup "
     "switches) executed as reference (text, knobs > file, 1 worker, no threads) and as perturbed execution "
@@ -83,6 +83,7 @@ def make_scenario(seed):
         "max_workers": 1,
         "confidence": True,
         "override": rng.random() < 0.85,
+        "ensemble": rng.random() < 0.12,
         "conf": {
             "decoys": rng.random() < 0.7,
             "dedup": rng.random() < 0.75,
@@ -308,6 +309,7 @@ def run_scenario(scn, workdir):
         "merge_chunk_small": int(kn.get("MERGE_SORT_CHUNK_SIZE", 10**9) < 10),
         "protein_level": int(scn.get("fasta_seed") is not None),
         "feature_with_missing_values": int(bool(scn["data"].get("nan_feature"))),
+        "ensemble_mode": int(bool(cfg.get("ensemble"))),
     }
     rg = pert.get("row_group")
     if pert["format"] == "parquet" and rg:
@@ -457,6 +459,8 @@ def shrink_candidates(scn):
         c = clone(scn); c["cfg"]["subset_max_train"] = None; yield c
     if cfg["learner"] != "rlda":
         c = clone(scn); c["cfg"]["learner"] = "rlda"; yield c
+    if cfg.get("ensemble"):
+        c = clone(scn); c["cfg"]["ensemble"] = False; yield c
     if cfg["folds"] > 2:
         c = clone(scn); c["cfg"]["folds"] = cfg["folds"] - 1; yield c
     if cfg["max_iter"] > 1:
